@@ -24,8 +24,8 @@
     `JAL` of the table: byte addresses of the laid-out program, `Loaded.addrs`), then `Memory::load` of the
     clause.  Hypothesis besides those of `sim2_switch`: the routine ends below 2^64 (`hfitX`) and the
     capacity of 14 variables.
-  * `C08_step_rv` (`step3`): Theorem A's `TheoremA_full` with the machine carried along, for every statement
-    form of print-free programs without closures (lit, op, ifc, exit, call, subst, let, switch).
+  * `C08_step_rv` (`step3`): Theorem A's `TheoremA_full` with the machine carried along, for EVERY statement
+    form (lit, op, ifc, exit, call, subst, let, switch, create, invoke; `print` has no RV64 code).
   * `C08_data_programs`: END TO END for print-free programs with data types (no closures) and at most 14
     variables at every reachable state, on the parsed LINES of the emitted routine: a terminating run of
     the positional machine with result `v` is reproduced by the RV64 SPEC machine started at the first
@@ -37,8 +37,8 @@
   `C08_data_programs` that are not yet derived from the others (all decidable on the program / the emitted
   routine): success of the mock code generator and `CodeFits` of its code, pairwise distinct labels of the
   routine, routine below 2^64, `fuel + 1 < 2^64`; and `C08_loader_statement` (Props/C08RVInt.lean).
-  NOT covered: closures (`create` / `invoke`): the word part of a closure is a code address, which is
-  represented differently on the two machines (the parameter `α` of `trW` is prepared for it).
+  Closures (`create` / `invoke`) and the run theorem for ALL programs: Props/C08RVClo.lean (the statements
+  `C08_let_rv`, `C08_switch_rv` … here already carry the machine words `cw`, `τ` of the closures along).
 -/
 import Scc.Props.C08RVInt
 import Scc.RV.RefEval
@@ -54,13 +54,13 @@ open Scc.Props.C14Generic (LabelSafe)
 
 section Heap4
 
-variable {mc : MonCfg} {α : Word → Word}
+variable {mc : MonCfg} {cw : Nat → Word} {τ : Nat → Nat → Word}
 
 /-- the abstract `erase` against the emitted `Memory::erase_block` -/
 theorem C08_erase_refines {la : String → Option Nat}
     {Γ : Ctx} {cfg cfg1 : Config} {rsKeep : List Nat} {hs : HState} {ι : Nat → Nat} {st : State}
     {i : Nat} (hi : i < Γ.length) (hc : Γ[i].chi ≠ .ext) {p : Word}
-    (X : X3R mc α Γ cfg (rsKeep ++ rp p) hs ι st)
+    (X : X3R mc cw τ Γ cfg (rsKeep ++ rp p) hs ι st)
     (hp : cfg.temps.get (2 * i) = some p) {h' : Heap} (he : cfg.heap.erase p = .ok h')
     (hcfg1 : cfg1 =
       { cfg with pc := cfg.pc + 1, temps := (clobberTemp cfg.temps).unset (2 * i), heap := h' })
@@ -68,14 +68,14 @@ theorem C08_erase_refines {la : String → Option Nat}
     ∃ code, (eraseBlock (posTemp (2 * i))).run kk = .ok (code, kk + 3) ∧ MemFree code ∧
       Code.LAB "cleanup" ∉ code ∧
       ∃ st' hs', execFwd mc la code st = .ok (st', .fall) ∧
-        X3R mc α Γ cfg1 rsKeep hs' ι st' ∧ FrLe hs hs' 0 :=
+        X3R mc cw τ Γ cfg1 rsKeep hs' ι st' ∧ FrLe hs hs' 0 :=
   erase_x3 hi hc X hp he hcfg1 kk
 
 /-- the abstract `share` against the emitted `Memory::share_block_n` -/
 theorem C08_share_refines {la : String → Option Nat}
     {Γ : Ctx} {cfg cfg1 : Config} {rs : List Nat} {hs : HState} {ι : Nat → Nat} {st : State}
     {i : Nat} (hi : i < Γ.length) (hc : Γ[i].chi ≠ .ext) {p : Word}
-    (X : X3R mc α Γ cfg rs hs ι st) (hmem : p ≠ 0 → p.toNat ∈ rs) (hrs : rs.length ≤ 2 ^ 40)
+    (X : X3R mc cw τ Γ cfg rs hs ι st) (hmem : p ≠ 0 → p.toNat ∈ rs) (hrs : rs.length ≤ 2 ^ 40)
     (hp : cfg.temps.get (2 * i) = some p) {k : Nat} (hk : k < 2 ^ 31) {h' : Heap}
     (he : cfg.heap.share p k = .ok h')
     (hcfg1 : cfg1 = { cfg with pc := cfg.pc + 1, temps := clobberTemp cfg.temps, heap := h' })
@@ -83,13 +83,13 @@ theorem C08_share_refines {la : String → Option Nat}
     ∃ code, (shareBlockN (posTemp (2 * i)) k).run kk = .ok (code, kk + 1) ∧ MemFree code ∧
       Code.LAB "cleanup" ∉ code ∧
       ∃ st' hs', execFwd mc la code st = .ok (st', .fall) ∧
-        X3R mc α Γ cfg1 (rs ++ (List.replicate k (rp p)).flatten) hs' ι st' ∧ FrLe hs hs' 0 :=
+        X3R mc cw τ Γ cfg1 (rs ++ (List.replicate k (rp p)).flatten) hs' ι st' ∧ FrLe hs hs' 0 :=
   share_x3 hi hc X hmem hrs hp hk he hcfg1 kk
 
 /-- the abstract `store` (at least one field) against the emitted `Memory::store` -/
 theorem C08_store_refines {la : String → Option Nat}
     {Γ : Ctx} {cfg cfg1 : Config} {hs : HState} {ι : Nat → Nat} {st : State}
-    (X : X3 mc α Γ cfg hs ι st) {n : Nat} (hn : n < Γ.length) {fields : List Abs.Field}
+    (X : X3 mc cw τ Γ cfg hs ι st) {n : Nat} (hn : n < Γ.length) {fields : List Abs.Field}
     (hf : readFields cfg.temps (Mock.kindsOf (Γ.drop n)) n = some fields)
     (hch : Obj.children ⟨0, fields⟩ = roots.go cfg.temps (Γ.drop n) n)
     (hnext : cfg.next < 2 ^ 64)
@@ -99,7 +99,7 @@ theorem C08_store_refines {la : String → Option Nat}
     ∃ code kk', (store (Γ.drop n) (Γ.take n)).run kk = .ok (code, kk') ∧ MemFree code ∧
       Code.LAB "cleanup" ∉ code ∧
       ∃ st' hs' p, execFwd mc la code st = .ok (st', .fall) ∧
-        X3R mc α (Γ.take n) cfg1 (roots (Γ.take n) cfg.temps ++ [cfg.next]) hs'
+        X3R mc cw (storeTau τ cfg.next cw n) (Γ.take n) cfg1 (roots (Γ.take n) cfg.temps ++ [cfg.next]) hs'
           (fun i => if i = cfg.next then p else ι i) st' ∧
         rv st' (2 * n) = some (BitVec.ofNat 64 p) ∧ p ≠ 0 ∧ p < 2 ^ 64 ∧
         FrLe hs hs' (64 * (Γ.length - n)) :=
@@ -109,7 +109,7 @@ theorem C08_store_refines {la : String → Option Nat}
 theorem C08_load_refines {la : String → Option Nat}
     {Γ' Δ : Ctx} {b : Binding} {cfg cfg4 cfg' : Config} {hs : HState} {ι : Nat → Nat} {st : State}
     {r : Word} {o : Obj} {h' : Heap}
-    (X : X3 mc α (Γ' ++ [b]) cfg hs ι st) (hb : b.chi ≠ .ext)
+    (X : X3 mc cw τ (Γ' ++ [b]) cfg hs ι st) (hb : b.chi ≠ .ext)
     (hr : cfg.temps.get (2 * Γ'.length) = some r) (hr0 : r ≠ 0)
     (hg : cfg.heap.get r.toNat = some o)
     (hk : o.fields.map (·.chi) = Mock.kindsOf Δ) (hne : o.fields ≠ [])
@@ -122,7 +122,7 @@ theorem C08_load_refines {la : String → Option Nat}
     (kk : Nat) :
     ∃ code kk', (load Δ Γ').run kk = .ok (code, kk') ∧ MemFree code ∧ Code.LAB "cleanup" ∉ code ∧
       ∃ st' hs', execFwd mc la code st = .ok (st', .fall) ∧
-        X3 mc α (Γ' ++ Δ) cfg' hs' ι st' ∧ FrLe hs hs' 0 :=
+        X3 mc (loadCw cw Γ'.length (τ r.toNat)) τ (Γ' ++ Δ) cfg' hs' ι st' ∧ FrLe hs hs' 0 :=
   load_x3 X hb hr hr0 hg hk hne hcapΔ h4next h4temps hlo hcfg' kk
 
 variable {pr : RV.Program} {ks : List Code} (L : Loaded pr ks) (hnd : (labs ks).Nodup)
@@ -138,7 +138,7 @@ theorem C08_let_rv {P : Abs.Program} {hooks : Bool} {prog : AxCut.Prog} {Γ : Ct
     (hpos : Pos.tagPosition prog.types ty tag = .ok pos)
     (hcap : 2 * (Γ.length - args.length + 1) + 2 < Mock.T_TEMP)
     (hnext : cfg.next < 2 ^ 64)
-    {hs : HState} {ι : Nat → Nat} {st : State} (X : X3 mc α Γ cfg hs ι st)
+    {hs : HState} {ι : Nat → Nat} {st : State} (X : X3 mc cw τ Γ cfg hs ι st)
     {k k' : Nat} {items : List Code}
     (hrun : (codeStatementR rvBackend hooks natRen prog.types (.letS x ty tag args next fv) Γ).run k =
       .ok (items, k'))
@@ -148,7 +148,8 @@ theorem C08_let_rv {P : Abs.Program} {hooks : Bool} {prog : AxCut.Prog} {Γ : Ct
       cfg'.out = cfg.out ∧ cfg'.next ≤ cfg.next + 1 ∧
       RelX P hooks prog ⟨Γ.take (Γ.length - args.length) ++ [⟨x, .prd, ty⟩],
         ρ.take (Γ.length - args.length) ++ [.obj pos (ρ.drop (Γ.length - args.length))], next⟩ cfg' ∧
-      X3 mc α (Γ.take (Γ.length - args.length) ++ [⟨x, .prd, ty⟩]) cfg' hs' ι' st' ∧
+      X3 mc cw (letTau τ cfg.next cw (Γ.length - args.length) args.length)
+        (Γ.take (Γ.length - args.length) ++ [⟨x, .prd, ty⟩]) cfg' hs' ι' st' ∧
       ∃ k1 k1' items', (codeStatementR rvBackend hooks natRen prog.types next
           (Γ.take (Γ.length - args.length) ++ [⟨x, .prd, ty⟩])).run k1 = .ok (items', k1') ∧
         KAt ks st'.pc items' :=
@@ -166,41 +167,47 @@ theorem C08_switch_rv (hfitX : codeBase + 4 * icount ks < 2 ^ 64)
     (hclause : nthClause clauses pos = some c)
     (hkinds : fields.map Sim2.kindOf = Mock.kindsOf c.ctx)
     (hcap : 2 * (Γ'.length + c.ctx.length) + 2 < Mock.T_TEMP)
-    {hs : HState} {ι : Nat → Nat} {st : State} (X : X3 mc α (Γ' ++ [b]) cfg hs ι st)
+    {hs : HState} {ι : Nat → Nat} {st : State} (X : X3 mc cw τ (Γ' ++ [b]) cfg hs ι st)
     {k k' : Nat} {items : List Code}
     (hrun : (codeStatementR rvBackend hooks natRen prog.types (.switch x ty clauses fv) (Γ' ++ [b])).run k =
       .ok (items, k'))
     (hat : KAt ks st.pc items)
-    (hcapX : Γ'.length + c.ctx.length ≤ 14) :
+    (hcapX : Γ'.length + c.ctx.length ≤ 14)
+    {Q : Word → Ctx → Clauses → Prop}
+    (CVh : CVals P hooks prog.types Q cw τ cfg.heap cfg.temps (Γ' ++ [b]) (ρ' ++ [.obj pos fields])) :
     ∃ kk cfg' st' hs', stepsTo P kk cfg cfg' ∧ Reach pr mc st st' ∧ FrLe hs hs' 0 ∧
       cfg'.out = cfg.out ∧ cfg'.next = cfg.next ∧
       RelX P hooks prog ⟨Γ' ++ c.ctx, ρ' ++ fields, c.body⟩ cfg' ∧
-      X3 mc α (Γ' ++ c.ctx) cfg' hs' ι st' ∧
+      (∃ r, cfg.temps.get (2 * Γ'.length) = some r ∧
+        X3 mc (loadCw cw Γ'.length (τ r.toNat)) τ (Γ' ++ c.ctx) cfg' hs' ι st' ∧
+        CVals P hooks prog.types Q (loadCw cw Γ'.length (τ r.toNat)) τ cfg'.heap cfg'.temps (Γ' ++ c.ctx)
+          (ρ' ++ fields)) ∧
       ∃ k1 k1' items', (codeStatementR rvBackend hooks natRen prog.types c.body (Γ' ++ c.ctx)).run k1 =
           .ok (items', k1') ∧ KAt ks st'.pc items' :=
-  switch_x3 L hnd hheap hfitX R hfits hb hfresh hclause hkinds hcap X hrun hat hcapX
+  switch_x3 L hnd hheap hfitX R hfits hb hfresh hclause hkinds hcap X hrun hat hcapX CVh
 
 end Heap4
 
 /-! ## the run theorem for programs with data types -/
 
-/-- THE THREE-WAY STEP: every step of the positional machine on a statement of a print-free program without
-closures from a typed state in the three-way relation is reproduced by the RV64 machine, and the relation
-holds again (`StepSim3`: with the bound on the object counter and on the heap frontier) -/
-theorem C08_step_rv {mc : MonCfg} {α : Word → Word} {pr : RV.Program} {ks : List Code} (L : Loaded pr ks)
+/-- THE THREE-WAY STEP: every step of the positional machine from a typed state in the three-way relation is
+reproduced by the RV64 machine, and the relation holds again (`StepSim3`: with the bound on the object counter
+and on the heap frontier).  ALL statements: `print` has no RV64 code, so it is never the current statement. -/
+theorem C08_step_rv {mc : MonCfg} {pr : RV.Program} {ks : List Code} (L : Loaded pr ks)
     (hndL : (labs ks).Nodup) (hheap : mc.heap = false) {ic : Nat} (hclean : labIdx ks "cleanup" = some ic)
+    (hicl : ic + 1 = ks.length)
     (hfitX : codeBase + 4 * icount ks < 2 ^ 64)
     (hooks : Bool) (prog : AxCut.Prog) (c : Nat) (code : List MockOp) (nargs c' : Nat)
     (hcomp : (compile mockSym hooks prog).run c = .ok ((code, nargs), c'))
     (hsafe : LabelSafe prog = true) (htp : LinTypedProg prog) (hfit : CodeFits code)
-    (DX : KDefsAt ks hooks prog) (hprog : ProgOK prog)
+    (DX : KDefsAt ks hooks prog)
     (st : Pos.State) (cfg : Config) (hs : HState) (X : State)
-    (R : Rel3 mc α ks (Program.ofOps code) hooks prog st cfg hs X)
-    (T : Pos.StateTyped prog st) (hheapA : EnoughHeap cfg) (hok : StmtOK st.stmt)
+    (R : Rel3 mc ks (Program.ofOps code) hooks prog st cfg hs X)
+    (T : Pos.StateTyped prog st) (hheapA : EnoughHeap cfg)
     (hroom : Room hs (64 * 15)) :
-    StepSim3 mc α pr ks (Program.ofOps code) hooks prog st cfg hs X :=
-  step3 L hndL hheap hclean hfitX hooks prog c code nargs c' hcomp hsafe htp hfit DX hprog st cfg hs X R T hheapA
-    hok hroom
+    StepSim3 mc pr ks (Program.ofOps code) hooks prog st cfg hs X :=
+  step3 L hndL hheap hclean hicl hfitX hooks prog c code nargs c' hcomp hsafe htp hfit DX st cfg hs X R T hheapA
+    hroom
 
 mutual
   /-- no `create` / `invoke` anywhere -/
@@ -223,41 +230,6 @@ end
 
 /-- programs with data types: no closures -/
 def ClosureFree (p : AxCut.Prog) : Prop := ∀ d ∈ p.defs, closureFreeStmt d.body = true
-
-mutual
-  theorem stmtOK_of_closureFree : ∀ (s : Stmt), closureFreeStmt s = true → printFreeStmt s = true → StmtOK s
-    | .lit _ _ next _, h, hp => by
-      simp only [closureFreeStmt, printFreeStmt] at h hp
-      simp only [StmtOK]; exact stmtOK_of_closureFree next h hp
-    | .op _ _ _ _ next _, h, hp => by
-      simp only [closureFreeStmt, printFreeStmt] at h hp
-      simp only [StmtOK]; exact stmtOK_of_closureFree next h hp
-    | .print _ _ _ _, _, hp => by simp [printFreeStmt] at hp
-    | .ifc _ _ _ t e, h, hp => by
-      simp only [closureFreeStmt, printFreeStmt, Bool.and_eq_true] at h hp
-      simp only [StmtOK]
-      exact ⟨stmtOK_of_closureFree t h.1 hp.1, stmtOK_of_closureFree e h.2 hp.2⟩
-    | .exit _, _, _ => by simp only [StmtOK]
-    | .call _ _, _, _ => by simp only [StmtOK]
-    | .subst _ next, h, hp => by
-      simp only [closureFreeStmt, printFreeStmt] at h hp
-      simp only [StmtOK]; exact stmtOK_of_closureFree next h hp
-    | .letS _ _ _ _ next _, h, hp => by
-      simp only [closureFreeStmt, printFreeStmt] at h hp
-      simp only [StmtOK]; exact stmtOK_of_closureFree next h hp
-    | .switch _ _ cs _, h, hp => by
-      simp only [closureFreeStmt, printFreeStmt] at h hp
-      simp only [StmtOK]; exact clausesOK_of_closureFree cs h hp
-    | .create _ _ _ _ _ _ _, h, _ => by simp [closureFreeStmt] at h
-    | .invoke _ _ _ _, h, _ => by simp [closureFreeStmt] at h
-  theorem clausesOK_of_closureFree : ∀ (cs : Clauses), closureFreeClauses cs = true →
-      printFreeClauses cs = true → ClausesOK cs
-    | .nil, _, _ => by simp only [ClausesOK]
-    | .cons _ _ body rest, h, hp => by
-      simp only [closureFreeClauses, printFreeClauses, Bool.and_eq_true] at h hp
-      simp only [ClausesOK]
-      exact ⟨stmtOK_of_closureFree body h.1 hp.1, clausesOK_of_closureFree rest h.2 hp.2⟩
-end
 
 /-- END TO END for print-free programs with data types (no closures), on the parsed LINES of the emitted
 routine, FULL STRENGTH.  Proved with further decidable side hypotheses as `C08_data_programs`. -/
@@ -299,7 +271,7 @@ theorem C08_data_programs (p : AxCut.Prog) (args : List Word) (hooks : Bool) (in
     (hhook : ∀ x ∈ lines, ¬ badHook x.2) :
     ∃ fuel', (runLines lines args fuel' mc).res = .done v :=
   programs_lines p args hooks instrs hdr nargs cX d0 ops c' hsafe htp
-    (fun d hd' => stmtOK_of_closureFree d.body (hcf d hd') (hpf d hd')) hcompM hfit hcompX hnd hfitX hd hentry hcap
+    hcompM hfit hcompX hnd hfitX hd hentry hcap
     fuel v hfuel hrun mc hheap htop hbytes lines hhdr hlines hhook
 
 /-- rung 4 on the TEXT: `RV.run` on the text of `compileRoutine`, given that this text loads -/
